@@ -1,5 +1,5 @@
 #!/bin/sh
-# ingest_seed4.sh <k> — round 5 (theme agents): /tmp/wt/W<k>r4/mutation_G,_H of worktree w<k> -> seeded/<PID>_W<k>G / _W<k>H, PID taken from meta.json
+# ingest_seed5.sh <k> — round 5 (theme agents): mutation_G,_H of worktree w<k> -> seeded/<PID>_V<k>G / _V<k>H, PID taken from meta.json
 k=$1; wt=/tmp/wt/w${k}
 for m in G H; do
   d=$wt/mutation_$m
